@@ -41,6 +41,7 @@ def bounds(tier, seed):
         kinds=sel.FPS_KINDS,
         directions=sel.DIRS,
         lattices=_lattice_specs(tier),
+        lattice_strides="quick: none; thorough: ternary 3x3 every 9th, 12-entry binary lattices every 4th (PCov-FPS: every 3rd of those)",
         generic_shapes=_generic_shapes(tier),
         generic_per_shape=_generic_count(tier),
         mixings=MIXINGS,
@@ -71,7 +72,7 @@ def _generic_count(tier):
 
 
 def _y_catalogue(n, tier):
-    if n <= 3 and tier == "thorough":
+    if n <= 2 and tier == "thorough":
         return [list(v) for v in itertools.product([0, 1, 2], repeat=n)]
     base = [[float((i * 7 + 3) % 5 - 2) for i in range(n)], [float(i % 2) for i in range(n)], [float(i * i) - 1.5 for i in range(n)]]
     if n <= 3 and tier == "thorough":
@@ -83,8 +84,12 @@ def groups(tier, seed):
     """One group per (kind, direction, data matrix)."""
     datas = []
     for (n, m, V) in _lattice_specs(tier):
-        for X in fam.lattice(n, m, V):
-            datas.append(("L%dx%d" % (n, m), X))
+        stride = 1
+        if tier == "thorough" and n * m >= 9:
+            stride = 9 if len(V) == 3 and n * m == 9 else (4 if n * m >= 12 else 1)
+        for i, X in enumerate(fam.lattice(n, m, V)):
+            if i % stride == 0:
+                datas.append(("L%dx%d" % (n, m), X))
     for (n, m) in _generic_shapes(tier):
         for X in fam.generic_list(n, m, seed, _generic_count(tier)):
             datas.append(("G%dx%d" % (n, m), X))
@@ -102,6 +107,8 @@ def groups(tier, seed):
             for label, X in datas:
                 if kind == "PCovFPS" and label.startswith("L") and tier == "quick" and len(X) * len(X[0]) > 9:
                     continue  # big lattices x (y, mixing) only in the thorough tier
+                if kind == "PCovFPS" and tier == "thorough" and label.startswith("L") and len(X) * len(X[0]) >= 9 and (len(out) % 3):
+                    continue  # thorough: PCov-FPS walks every 3rd of the (strided) large lattices
                 if kind == "PCovFPS" and (label.endswith("tiny") or label.endswith("huge")):
                     continue  # the PCov distance has a documented absolute rank cut: scale is not free there
                 out.append(dict(kind=kind, dir=direction, label=label, X=X, tier=tier))
@@ -133,7 +140,7 @@ def _cases(group):
     X = group["X"]
     kind, direction = group["kind"], group["dir"]
     N = sel.n_items(X, direction)
-    big = N > 5 or (group["tier"] == "quick" and N >= 4 and group["label"].startswith("L"))
+    big = N > 5 or (N >= 4 and group["label"].startswith("L") and (group["tier"] == "quick" or kind == "PCovFPS"))
     if kind == "FPS":
         for init in _inits(N, big):
             n0 = len(init) if isinstance(init, list) else 1
